@@ -228,6 +228,68 @@ def shared_smooth(rng, nbits, both):
       return p * q, p, q
 
 
+def _maxexp(p0, limit):
+  e = 0
+  while p0 ** (e + 1) <= limit:
+    e += 1
+  return e
+
+
+def _squarefree_smooth_prime(rng, mult, bits, avoid, smooth, bound=2 ** 20):
+  """Prime p = mult*c + 1 of `bits` bits; c even; if smooth, c/2 is a product
+  of distinct odd primes < bound that avoid `avoid`."""
+  sp = [x for x in small_primes() if x < bound]
+  for _ in range(200000):
+    if smooth:
+      c, used = 2 if mult % 2 else 1, set(avoid) | {2}
+      while (mult * c).bit_length() < bits - 1:
+        r = rng.choice(sp)
+        if r in used:
+          continue
+        used.add(r)
+        c *= r
+      if (mult * c).bit_length() > bits:
+        continue
+    else:
+      cb = bits - mult.bit_length()
+      c = (rng.bits(cb) | (1 << (cb - 1))) & ~1
+    p = mult * c + 1
+    if p.bit_length() == bits and is_prime(p):
+      return p
+  return None
+
+
+def shared_smooth_maxpow(rng, nbits, both):
+  """Like shared_smooth, but the shared factor is the *maximal* power of a
+  small prime that the default Pollard product contains (2^64, 3^40, 5^27,
+  ...): the boundary of 'smooth enough for the default product'."""
+  while True:
+    p0 = rng.choice([2, 3, 5, 7, 11, 13])
+    shared = p0 ** _maxexp(p0, 2 ** 64)
+    p = _squarefree_smooth_prime(rng, shared, nbits // 2, [p0], True)
+    q = _squarefree_smooth_prime(rng, shared, nbits // 2, [p0], both)
+    if p and q and p != q:
+      return p * q, p, q
+
+
+def shared_smooth_squarefree(rng, nbits, both, bound):
+  """p-1 and q-1 share a squarefree product (>= 2^60) of distinct odd primes
+  below bound; p-1 is a squarefree product of primes below bound (so it
+  divides every bound-powersmooth product); q-1 too iff both."""
+  sp = [x for x in small_primes() if 2 < x < bound]
+  while True:
+    shared, used = 1, set()
+    while shared.bit_length() < 62:
+      r = rng.choice(sp)
+      if r not in used:
+        used.add(r)
+        shared *= r
+    p = _squarefree_smooth_prime(rng, shared, nbits // 2, used, True, bound)
+    q = _squarefree_smooth_prime(rng, shared, nbits // 2, used, both, bound)
+    if p and q and p != q:
+      return p * q, p, q
+
+
 # ------------------------------------------------------- degenerate moduli
 
 def degenerate(rng, kind, bits):
